@@ -1,4 +1,4 @@
-//go:build verif
+//go:build verif && !dae_stub_ebpf
 
 package control
 
